@@ -186,10 +186,10 @@ def kani_env():
     return env
 
 
-def run_cmd(cmd, cwd, timeout, logfile):
+def run_cmd(cmd, cwd, timeout, logfile, mem_kb=None):
     """Run under ulimit -s unlimited (CBMC needs it) and an address-space cap."""
     sh = "ulimit -s unlimited 2>/dev/null; ulimit -v %d 2>/dev/null; exec %s" % (
-        MEM_LIMIT_KB,
+        mem_kb or MEM_LIMIT_KB,
         " ".join("'%s'" % c.replace("'", "'\\''") for c in cmd),
     )
     t0 = time.time()
@@ -260,7 +260,8 @@ def replay_counterexample(crate, scratch, h, failed, logdir):
     logfile = os.path.join(logdir, "playback-gen-%s.log" % h["name"])
     cmd = ["cargo", "kani", "--harness", h["name"], "--exact" if False else "--output-format", "terse"]
     cmd = ["cargo", "kani", "--harness", h["name"], "--output-format", "terse", "-Z", "stubbing", "-Z", "concrete-playback", "--concrete-playback=print"]
-    rc, _ = run_cmd(cmd, crate, TIER_TIMEOUT["thorough"], logfile)
+    # kani-driver parses CBMC's JSON trace in memory: give this step a larger cap
+    rc, _ = run_cmd(cmd, crate, TIER_TIMEOUT["thorough"], logfile, mem_kb=48 * 1024 * 1024)
     text = open(logfile).read()
     tests = PLAYBACK_RE.findall(text)
     # Kani de-duplicates generated tests by their concrete values, so the values that falsify
